@@ -64,6 +64,7 @@
 (*     (refusing is lossless; accepting would round above 2^53)            *)
 (*  D6 integer types take exact integers only: 1.0 is the wrong kind       *)
 (*  D7 a tuple (A, B) is a two-element list                                *)
+(*  D8 a slice parameter `&[T]` takes a list only                          *)
 (* Not a deviation, a demand of the property: f64 -> f32 must fail when    *)
 (* the value is not exactly an f32 (overflow to inf, underflow to 0,       *)
 (* rounding are all losses).                                               *)
@@ -512,7 +513,8 @@ Shapes == <<Shape("f0", << >>), Shape("f1", <<T_i32>>), Shape("f2", <<T_i32, TSt
             Shape("f4", <<T_i32, TStr, TBool, TChar>>), Shape("fo", <<TOpt("opt-i32", T_i32), T_u8>>),
             Shape("p-x", <<TPRef>>), Shape("p-add", <<TPRef, T_i32, TStr>>), Shape("p-set-x!", <<TPMut, T_i32>>),
             Shape("p-bump!", <<TPMut>>), Shape("p-same-x?", <<TPRef, TPRef>>), Shape("p-scale", <<T_i32, TPRef>>),
-            Shape("f16", [i \in 1..16 |-> T_i32])>>
+            Shape("f16", [i \in 1..16 |-> T_i32]),
+            Shape("m-f2", <<T_i32, TStr>>)>>       \* registered in a BuiltInModule (separately generated wrapper)
 \* a good value per parameter type, and the values that must be refused
 Good(T, i) == CASE T.t = "int" -> IF T.name = "u8" THEN VI(200 + i) ELSE VI(10 * i)
                 [] T.t = "string" -> VStr(SHello)
@@ -567,10 +569,66 @@ CallKeys ==
                   : i \in (IF sh.name = "f16" THEN {1, 14, 16} ELSE 1..np)}
     : n \in 1..Len(Shapes)}
 
-Keys == ConvKeys \cup IntoKeys \cup CallKeys
+-----------------------------------------------------------------------------
+(* 9. Signature shapes with a LENT receiver (`&mut SELF` of a CustomReference type) and a slice:
+      Fn(&mut SELF, &[i64], i64), Fn(&mut SELF, &[i64]), Fn(&mut SELF); each registered on the Engine and in
+      a BuiltInModule ("m-" prefix).  The call happens inside a lending call of object A (value 100).
+      D8: a slice parameter takes a LIST only (AsRefSteelValFromUnsized matches ListV). *)
+TCell == [t |-> "cellmut", name |-> "&mut cell"]
+TSlice == [t |-> "slice", name |-> "&[i64]"]
+T_i64 == TInt("i64")
+VHandle == [k |-> "handle"]
+RConv(T, v) == CASE T.t = "cellmut" -> v.k = "handle"
+                 [] T.t = "slice" -> v.k = "list" /\ \A i \in 1..Len(v.xs) : Conv(T_i64, v.xs[i]).ok
+                 [] OTHER -> Conv(T, v).ok
+RSrc(v) == IF v.k = "handle" THEN "r1_0" ELSE Src(v)
+RECURSIVE RSrcAll(_)
+RSrcAll(xs) == IF xs = << >> THEN "" ELSE " " \o RSrc(Head(xs)) \o RSrcAll(Tail(xs))
+RFn(n, rec, acc, ps) == [name |-> n, rec |-> rec, acc |-> acc, params |-> ps]
+RFns == <<RFn("cell-addall", "cell-addall", "addall", <<TCell, TSlice, T_i64>>),
+          RFn("m-cell-addall", "cell-addall", "addall", <<TCell, TSlice, T_i64>>),
+          RFn("cell-sumall", "cell-sumall", "sumall", <<TCell, TSlice>>),
+          RFn("m-cell-sumall", "cell-sumall", "sumall", <<TCell, TSlice>>),
+          RFn("m-cell-get-mut", "", "get_mut", <<TCell>>)>>
+RGood(T) == CASE T.t = "cellmut" -> VHandle [] T.t = "slice" -> VList(<<VI(1), VI(2), VI(3)>>) [] OTHER -> VI(10)
+RBad(T) == CASE T.t = "cellmut" -> {VI(5), VStr(SA), VP(ZSmall(5), SHi)}
+             [] T.t = "slice" -> {VList(<<VI(1), VStr(SA)>>), VI(1), VVec(<<VI(1), VI(2)>>), VList(<<VInt(P63)>>)}
+             [] OTHER -> {VStr(SA), VInt(P63)}
+\* the small sums of the good arguments are TLC integers
+RResult(f, args) == 100 + (IF Len(f.params) >= 2 THEN 6 ELSE 0) + (IF Len(f.params) = 3 THEN 10 ELSE 0)
+ROK(f, args) == Len(args) = Len(f.params) /\ \A i \in 1..Len(args) : RConv(f.params[i], args[i])
+RK(n, args, what) == [fam |-> "refcall", n |-> n, args |-> args, what |-> what]
+RefKeys ==
+  UNION {
+    LET f == RFns[n]
+        g == [i \in 1..Len(f.params) |-> RGood(f.params[i])]
+        np == Len(f.params) IN
+      {RK(n, g, "good"), RK(n, g \o <<VI(1)>>, "toomany"), RK(n, SubSeq(g, 1, np - 1), "toofew")}
+      \cup UNION {{RK(n, Replace(g, i, b), "bad" \o ToString(i) \o "-" \o VTag(f.params[i], b)) : b \in RBad(f.params[i])}
+                  : i \in 1..np}
+    : n \in 1..Len(RFns)}
+RefCaseOf(key) ==
+  LET f == RFns[key.n]
+      ok == ROK(f, key.args) IN
+    [tag |-> "conv|fam=refcall|ty=" \o f.name \o "|dir=call|v=" \o key.what \o "|exp=" \o YN(ok) \o "|why=|",
+     steps |-> <<[h |-> "open", g |-> 1, eng |-> 1, refs |-> <<[obj |-> "A", mode |-> "mut"]>>, src |-> "#host open g1 e1 [A:mut]"],
+                 [h |-> "enter", g |-> 1, api |-> "consume_once", src |-> "#host enter g1"],
+                 [src |-> "(emit (" \o f.name \o RSrcAll(key.args) \o "))", class |-> YN(ok),
+                  emit |-> IF ok THEN <<ToString(RResult(f, key.args))>> ELSE << >>,
+                  acc |-> IF ok THEN <<"A." \o f.acc>> ELSE << >>,
+                  calls |-> IF ok /\ f.rec # ""
+                              THEN <<[fn |-> f.rec,
+                                      args |-> [i \in 1..(Len(key.args) - 1) |->
+                                                  IF f.params[i + 1].t = "slice" THEN HJAll(T_i64, key.args[i + 1].xs)
+                                                  ELSE HJ(T_i64, key.args[i + 1])]]>>
+                              ELSE << >>],
+                 [h |-> "exit", g |-> 1, src |-> "#host exit g1"]>>]
+
+Keys == ConvKeys \cup IntoKeys \cup CallKeys \cup RefKeys
 CaseOf(key) == CASE key.fam \in {"conv", "hostonly"} -> ConvCaseOf(key)
                  [] key.fam \in {"into128", "intostr"} -> IntoCaseOf(key)
                  [] key.fam = "call" -> CallCase(Shapes[key.n], key.args, key.what)
+                 [] key.fam = "refcall" -> RefCaseOf(key)
 
 Init == c \in Keys
 Next == UNCHANGED c
